@@ -239,7 +239,7 @@ Section Exec.
          invalid character; then native skip_array reads the rest of the array *)
       match skip_ws inp with
       | [] => Fail
-      | c :: _ as inp' =>
+      | (c :: _) as inp' =>
         if c =? 93 then Fail else
         if o_validate o && negb (match pvalue (parse_fuel inp') true (91 :: inp') with Some (j, _) => strict_jv j | None => true end)
         then Unknown else
